@@ -155,6 +155,13 @@ func registerZZ(in *Interp) {
 	}
 	I[zz+"MapOrder"] = func(in *Interp, fr *frame, fn *ssa.Function, a []value) value {
 		in.run.mapOrder = a[0].(bool)
+		if in.run.mapOrderMax == 0 {
+			in.run.mapOrderMax = 4
+		}
+		return nil
+	}
+	I[zz+"MapOrderMax"] = func(in *Interp, fr *frame, fn *ssa.Function, a []value) value {
+		in.run.mapOrderMax = int(in.intArg(a[0], "n"))
 		return nil
 	}
 	I[zz+"Assume"] = func(in *Interp, fr *frame, fn *ssa.Function, a []value) value {
